@@ -66,7 +66,7 @@ def gen_case(rng, idx, tier):
         rest = [u for u in params if u not in keep]
         params = sorted(keep | set(rng.sample(rest, 60 - len(keep))))
     return {"U": lib.enc(U), "P": lib.enc(cur["P"]), "W": lib.enc(cur["W"]), "numtype": nt, "src": src,
-            "params": lib.enc(params), "outside": lib.enc(gen.outside_params(U))}
+            "params": lib.enc(params), "outside": lib.enc(gen.outside_params(U, nt in ("frac", "int")))}
 
 
 def where(U, u):
